@@ -106,7 +106,7 @@ class Recorder:
             ln = dict(a="M", t=float(time), hits=[], last=-1, widths=[], vd=float(pva['VD']), alt=float(pva['alt']), set=0, upd=0)
             ip = getattr(self, "state", {}).pop("interp", None)
             if ip is not None:
-                ln["row"], ln["nrow"], ln["aok"] = ip[0], ip[1], bool(0.0 <= ip[2] < 1.0)
+                ln["row"], ln["nrow"], ln["aok"] = ip[0], ip[1], bool(0.0 <= ip[2] <= 1.0)   # (an epoch one ulp below the next row gives alpha == 1.0 in floats)
             self.lines.append(ln)
         ln["last"] = sidx
         if ret is not None:
